@@ -78,6 +78,54 @@ theorem readN_some {st : RState} {n : Nat} {p : Bytes} {st' : RState} (h : readN
   · simp only [Option.some.injEq, Prod.mk.injEq] at h
     exact ⟨h.2.symm, h.1.symm, by omega⟩
 
+theorem processControl_inv (ft : Nat) (payload : Bytes) (st0 st : RState) (h : st.closeSent = false)
+    (hr : st.result = st0.result) : AdvInv st0 (processControl ft payload st) := by
+  unfold processControl
+  split
+  · simp [AdvInv, h, hr]
+  · split
+    · have := writeControl_pong { st with events := st.events ++ [Event.ping payload] } payload
+      simp only [AdvInv]
+      rw [this.1, this.2.1]
+      exact ⟨h, hr⟩
+    · match payload with
+      | [] => simp [AdvInv]
+      | [_] => simp [AdvInv]
+      | a :: b :: text =>
+        simp only []
+        by_cases hc : (!goValidCloseCode (a.toNat * 256 + b.toNat)) = true
+        · rw [if_pos hc]
+          obtain ⟨st', he, hl⟩ := handleProtocolError_spec st
+            ("bad close code " ++ toString (a.toNat * 256 + b.toNat)) h
+          rw [he]; exact hl
+        · rw [if_neg hc]
+          by_cases hu : (!utf8Valid text) = true
+          · rw [if_pos hu]
+            obtain ⟨st', he, hl⟩ := handleProtocolError_spec st "invalid utf8 payload in close frame" h
+            rw [he]; exact hl
+          · rw [if_neg hu]; simp [AdvInv]
+
+theorem processControl_ok_input {ft ft' : Nat} {payload : Bytes} {st st' : RState}
+    (h : processControl ft payload st = .ok ft' st') : st'.input = st.input := by
+  unfold processControl at h
+  split at h
+  · simp only [Adv.ok.injEq] at h
+    rw [← h.2]
+  · split at h
+    · simp only [Adv.ok.injEq] at h
+      rw [← h.2, (writeControl_pong _ payload).2.2.2.2]
+    · match payload with
+      | [] => simp at h
+      | [_] => simp at h
+      | a :: b :: text =>
+        simp only [] at h
+        by_cases hc : (!goValidCloseCode (a.toNat * 256 + b.toNat)) = true
+        · rw [if_pos hc] at h; unfold handleProtocolError at h; cases h
+        · rw [if_neg hc] at h
+          by_cases hu : (!utf8Valid text) = true
+          · rw [if_pos hu] at h; unfold handleProtocolError at h; cases h
+          · rw [if_neg hu] at h; cases h
+
 theorem controlFrame_inv (cfg : Cfg) (ft : Nat) (st0 st : RState) (h : st.closeSent = false)
     (hr : st.result = st0.result) : AdvInv st0 (controlFrame cfg ft st) := by
   unfold controlFrame
@@ -96,22 +144,7 @@ theorem controlFrame_inv (cfg : Cfg) (ft : Nat) (st0 st : RState) (h : st.closeS
           simp [h, hr]
       · simp only [Option.some.injEq, Prod.mk.injEq] at hpay
         rw [← hpay.2]; exact ⟨h, hr⟩
-    split
-    · simp [AdvInv, h1]
-    · split
-      · have := writeControl_pong { st1 with events := st1.events ++ [Event.ping payload] } payload
-        simp only [AdvInv]
-        rw [this.1, this.2.1]
-        exact h1
-      · split
-        · split
-          · obtain ⟨st', he, hl⟩ := handleProtocolError_spec st1 _ h1.1
-            rw [he]; exact hl
-          · split
-            · obtain ⟨st', he, hl⟩ := handleProtocolError_spec st1 _ h1.1
-              rw [he]; exact hl
-            · simp [AdvInv]
-        · simp [AdvInv]
+    exact processControl_inv ft payload st0 st1 h1.1 h1.2
 
 theorem readLen_ok {st st' : RState} (h : readLen st = .ok st') :
     st'.closeSent = st.closeSent ∧ st'.result = st.result := by
@@ -291,19 +324,7 @@ theorem controlFrame_ok_input {cfg : Cfg} {ft ft' : Nat} {st st' : RState}
           rw [← hpay.2, hst]; simp
       · simp only [Option.some.injEq, Prod.mk.injEq] at hpay
         rw [← hpay.2]; exact Nat.le_refl _
-    split at h
-    · simp only [Adv.ok.injEq] at h
-      rw [← h.2]; exact h1
-    · split at h
-      · simp only [Adv.ok.injEq] at h
-        rw [← h.2, (writeControl_pong _ payload).2.2.2.2]; exact h1
-      · split at h
-        · split at h
-          · unfold handleProtocolError at h; cases h
-          · split at h
-            · unfold handleProtocolError at h; cases h
-            · cases h
-        · cases h
+    rw [processControl_ok_input h]; exact h1
 
 theorem frameBody_ok_input {cfg : Cfg} {hd : Hdr} {ft : Nat} {st st' : RState}
     (h : frameBody cfg hd st = .ok ft st') : st'.input.length ≤ st.input.length := by
